@@ -9,3 +9,5 @@ git -C /repo apply /verif/seeded/$S/patch.diff || { echo "patch does not apply";
 VERIF_EVIDENCE_DIR=/var/tmp/dmv/seed-evidence VERIF_REPLAYS_DIR=/var/tmp/dmv/seed-replays ./check $C --tier $T 2>&1 | grep -E "^VIOLATION|^KNOWN|^  " | cut -c1-400 | head -${LINES_MAX:-6}
 echo "exit=${PIPESTATUS[0]}"
 git -C /repo checkout -- .
+# the regenerated tables on disk now describe the seeded tree: bring them back to the unchanged one
+python3 /verif/tools/gen_tables.py > /dev/null 2>&1
